@@ -94,7 +94,7 @@ Theorem select_sorted_nodup : forall cfg strict atoms s l,
   StronglySorted Z.lt l /\ NoDup l /\ incl l (map a_index atoms).
 Proof.
   intros cfg strict atoms s l Hs H. unfold select_str in H. destruct (lex cfg s) as [ts|]; [|discriminate].
-  unfold select_tokens in H. destruct (compile_tokens cfg strict ts) as [p|]; [|discriminate].
+  unfold select_tokens, run_compiled in H. destruct (compile_tokens cfg strict ts) as [p|]; [|discriminate].
   destruct (select_py (attr cfg) p atoms) as [l'|x] eqn:Hsel; [|discriminate]. injection H as <-.
   apply select_py_ok in Hsel. destruct Hsel as [_ ->]. unfold comprehension.
   assert (Hsorted : StronglySorted Z.lt (map a_index (filter (holds (attr cfg) p) atoms)))
@@ -109,7 +109,7 @@ Theorem select_exact : forall cfg strict atoms ts p,
   (forall a, In a atoms -> exists v, py_eval (attr cfg a) p = Ok v) ->
   select_tokens cfg strict atoms ts = Sel (comprehension (attr cfg) p atoms).
 Proof.
-  intros cfg strict atoms ts p Hc Hall. unfold select_tokens. rewrite Hc.
+  intros cfg strict atoms ts p Hc Hall. unfold select_tokens, run_compiled. rewrite Hc.
   destruct (select_py (attr cfg) p atoms) as [l|x] eqn:Hsel.
   - apply select_py_ok in Hsel. destruct Hsel as [_ ->]. reflexivity.
   - apply select_py_err in Hsel. destruct Hsel as [pre [a [post [Heq [Ha _]]]]].
@@ -254,7 +254,7 @@ Qed.
 Lemma select_tokens_inv : forall cfg strict atoms ts l, select_tokens cfg strict atoms ts = Sel l ->
   exists p, compile_tokens cfg strict ts = Some p /\ select_py (attr cfg) p atoms = Ok l.
 Proof.
-  intros cfg strict atoms ts l H. unfold select_tokens in H. destruct (compile_tokens cfg strict ts) as [p|]; [|discriminate].
+  intros cfg strict atoms ts l H. unfold select_tokens, run_compiled in H. destruct (compile_tokens cfg strict ts) as [p|]; [|discriminate].
   exists p. split; [reflexivity|]. destruct (select_py (attr cfg) p atoms); [injection H as <-; reflexivity|discriminate].
 Qed.
 
@@ -309,13 +309,13 @@ Section Surface.
     apply select_tokens_inv in HB. destruct HB as [pb [Hcb HsB]]. rewrite (compile_print cfg strict b Hnd Hwb) in Hcb.
     destruct (eval_bool_algebra_py (attr cfg) pa pb atoms A B Hidx HsA HsB) as [[R1 [H1 H1']] [[R2 [H2 H2']] [R3 [H3 H3']]]].
     repeat split.
-    - intros o Hk Ho. exists R1. split; [|assumption]. unfold select_tokens.
+    - intros o Hk Ho. exists R1. split; [|assumption]. unfold select_tokens, run_compiled.
       rewrite (compile_print cfg strict _ Hnd (wf_bin2 a b o Hwa Hwb Hk)).
       rewrite (compile_boolop a b o BAnd pa pb Ho Hla Hlb Hca Hcb). rewrite H1. reflexivity.
-    - intros o Hk Ho. exists R2. split; [|assumption]. unfold select_tokens.
+    - intros o Hk Ho. exists R2. split; [|assumption]. unfold select_tokens, run_compiled.
       rewrite (compile_print cfg strict _ Hnd (wf_bin2 a b o Hwa Hwb Hk)).
       rewrite (compile_boolop a b o BOr pa pb Ho Hla Hlb Hca Hcb). rewrite H2. reflexivity.
-    - intros o Hk. exists R3. split; [|assumption]. unfold select_tokens.
+    - intros o Hk. exists R3. split; [|assumption]. unfold select_tokens, run_compiled.
       assert (Hw : wf cfg (EUn o a)) by (cbn [wf]; split; assumption).
       rewrite (compile_print cfg strict _ Hnd Hw). rewrite (compile_not a o pa Hla Hca). rewrite H3. reflexivity.
   Qed.
@@ -458,4 +458,43 @@ Proof.
   exists f, vs. repeat split; try assumption. intros a.
   destruct (kw_py_eval cfg k pf a Hk) as [f' [Hf' [Hev _]]]. assert (f' = f) by congruence. subst f'.
   cbn [rewrite_names py_eval]. rewrite Hev, Hr. rewrite inlist_go. reflexivity.
+Qed.
+
+(* ------------------------------------------------------------------ the shortcut used by the correspondence run *)
+Require Import MD.Select.Run MD.Select.Malformed.
+
+Lemma kw_py_not_unsafe_const : forall cfg k p v, kw_py cfg k = Some p -> rewrite_names p = PConst v ->
+  is_safe_const v = true /\ in_safe_set v = true.
+Proof.
+  intros cfg k p v H Hr. unfold kw_py in H. destruct (assoc k (sel_kws cfg)) as [f|]; [|discriminate].
+  destruct f; injection H as <-; cbn in Hr; try discriminate; injection Hr as <-; split; reflexivity.
+Qed.
+
+(* the two single-literal variants differ at most when the parse tree is a single literal *)
+Lemma compile_parsed_strict_irrelevant : forall cfg e, is_lit_expr e = false ->
+  compile_parsed cfg false (Some e) = compile_parsed cfg true (Some e).
+Proof.
+  intros cfg e Hl. unfold compile_parsed. destruct (negb (ctor_ok cfg e)); [reflexivity|].
+  destruct (to_py cfg e) as [p0|] eqn:Ht; [|reflexivity].
+  assert (Hsame : forall v, rewrite_names p0 = PConst v -> is_safe_const v = in_safe_set v).
+  { intros v Hv. destruct e; try discriminate; [cbn [to_py] in Ht|cbn [to_py] in Ht|cbn [to_py] in Ht|cbn [to_py] in Ht| |cbn [to_py] in Ht].
+    - destruct (kw_py_not_unsafe_const cfg k p0 v Ht Hv) as [-> ->]. reflexivity.
+    - destruct (kw_py cfg k); [|discriminate]. destruct (lit_py cfg lo); [|discriminate]. destruct (lit_py cfg hi); [|discriminate].
+      injection Ht as <-. discriminate.
+    - destruct (kw_py cfg k); [|discriminate]. destruct (map_opt (lit_py cfg) ls) as [[|a [|b r]]|]; try discriminate;
+        injection Ht as <-; discriminate.
+    - destruct (to_py cfg e); [|discriminate]. injection Ht as <-. discriminate.
+    - rewrite Malformed.to_py_bin in Ht.
+      destruct (to_py cfg e); [|discriminate]. destruct (Malformed.to_py_rest cfg rest); [|discriminate].
+      destruct (chain_sem cfg rest) as [[b|c]|]; try discriminate; injection Ht as <-; discriminate.
+    - destruct (to_py cfg e2); [|discriminate]. destruct (to_py cfg e1); [|discriminate]. injection Ht as <-. discriminate. }
+  destruct (rewrite_names p0) eqn:Hr; try reflexivity. rewrite (Hsame v eq_refl). reflexivity.
+Qed.
+
+Theorem select_pair_correct : forall cfg atoms ts,
+  select_pair cfg atoms ts = (select_tokens cfg false atoms ts, select_tokens cfg true atoms ts).
+Proof.
+  intros cfg atoms ts. unfold select_pair, select_tokens, compile_tokens.
+  destruct (parse_all cfg ts) as [e|]; [|reflexivity].
+  destruct e; try reflexivity; rewrite <- compile_parsed_strict_irrelevant by reflexivity; reflexivity.
 Qed.
